@@ -201,6 +201,60 @@ def saveOrderS (status : List Status) (g : Graph) (qs : Slots) : Except Err (Lis
   | .ok r => .ok (r.1.out, r.2)
   | .error e => .error e
 
+/-! ### the transaction around the statements: `_exec_sql`, `prepare_connection_for_query_execution`,
+      `set_transaction_mode` (SQLite), `SessionCache.flush` (the `immediate` flag), `commit`, `rollback`, `flush_and_commit`
+
+  What the database durably holds is represented by the log of committed statements; "the database is unchanged" is
+  "the committed log is unchanged". -/
+
+structure Conn where
+  inTxn : Bool                 -- cache.in_transaction
+  immediate : Bool             -- cache.immediate
+  committed : List Write       -- statements whose effect is durable
+  pending : List Write         -- statements executed inside the open transaction
+  deriving Repr
+
+/-- the `start_transaction` argument the five writers pass to `_exec_sql`: the object writers pass `True`, `add_m2m` and
+    `remove_m2m` pass nothing and rely on the flag `flush` has set (re-derived from the source: Gen/FlushShape.lean) -/
+def startFlag : Write → Bool
+  | .insert _ | .update _ | .delete _ => true
+  | .unlink _ _ | .link _ _ => false
+
+/-- one `database._exec_sql(sql, args, start_transaction=f)`:
+    `if start_transaction: cache.immediate = True`; `prepare_connection_for_query_execution`: `if cache.immediate and not
+    cache.in_transaction: set_transaction_mode` (BEGIN IMMEDIATE, `in_transaction = True`); the statement then runs inside
+    the transaction, or - no transaction open - in autocommit mode, i.e. durably at once. -/
+def execStmt (c : Conn) (w : Write) : Conn :=
+  let imm := c.immediate || startFlag w
+  let inTxn := c.inTxn || imm
+  if inTxn then { c with immediate := imm, inTxn := true, pending := c.pending ++ [w] }
+  else { c with immediate := imm, committed := c.committed ++ [w] }
+
+def execAll (c : Conn) (ws : List Write) : Conn := ws.foldl execStmt c
+
+/-- `provider.commit` when a transaction is open; `cache.immediate = True` afterwards (as `SessionCache.commit` does) -/
+def commitConn (c : Conn) : Conn :=
+  { inTxn := false, immediate := true, committed := if c.inTxn then c.committed ++ c.pending else c.committed, pending := [] }
+
+/-- `cache.rollback()` -/
+def rollbackConn (c : Conn) : Conn := { c with inTxn := false, pending := [] }
+
+/-- `SessionCache.flush` seen from the connection: `prev_immediate = cache.immediate; cache.immediate = True`, the
+    statements (all of them on success, the ones executed before the raise otherwise), and
+    `finally: if not cache.in_transaction: cache.immediate = prev_immediate`.
+    `setImmediate = false` is the code WITHOUT the line `cache.immediate = True` (used only to show the line matters). -/
+def flushConn (setImmediate : Bool) (c : Conn) (executed : List Write) : Conn :=
+  let c1 := execAll { c with immediate := c.immediate || setImmediate } executed
+  if c1.inTxn then c1 else { c1 with immediate := c.immediate }
+
+/-- `SessionCache.flush_and_commit` / the commit at the end of a db_session:
+    `try: flush() except: rollback(); raise` then `commit()`.  `executed` = the statements the flush executed: the whole
+    list when it succeeds, an arbitrary prefix-like list (whatever was sent before the raise) when it fails. -/
+def flushAndCommit (c : Conn) (ss : Session) (executedBeforeRaise : List Write) : Conn × Except Err Unit :=
+  match flush ss with
+  | .ok ws => (commitConn (flushConn true c ws), .ok ())
+  | .error e => (rollbackConn (flushConn true c executedBeforeRaise), .error e)
+
 /-! ### a database with immediately enforced foreign keys (parent-must-exist check of INSERT / UPDATE) -/
 
 /-- execute one statement against the set `rows` of existing rows; `none` = the backend refuses (FK violation).
